@@ -171,7 +171,7 @@ def tarsCase (kind idS opsS validS fieldsS inS : String) (impl : List String) : 
                               sBuffer := sb, status := t, sResultDesc := s1, context := c } id))
       let (mdec, menc) : String × String :=
         match Tars.frameLen? inp with
-        | none => ("more", "-")
+        | none => if Tars.packageError inp then ("err", "-") else ("more", "-")   -- [c08l9]
         | some k => if valid then (s!"frame:{k}", "ok") else ("err", "-")
       let agree := mdec == dec && menc == enc && (menc != "ok" || outs.contains out)
       let implOut : Option Bytes := if enc == "ok" then some out else none
